@@ -18,6 +18,7 @@ import PPProofs.Props.C11Deep
 #print axioms PP.PRHeap.deepcopy_names_shared
 #print axioms PP.PRHeap.deepcopy_named_alias_any_depth
 #print axioms PP.PRHeap.deepcopy_tokens_fresh_full
+#print axioms PP.PRHeap.deepcopy_views
 #print axioms PP.PRHeap.deepcopyN_corr
 #print axioms PP.PRHeap.deepcopyN_ext
 #print axioms PP.PRHeap.copyModule_deep_fresh
